@@ -1823,9 +1823,11 @@ impl Scenario for E1 {
 
     fn budget(&self, tier: &Tier) -> (u64, u64) {
         match (self.kind, tier) {
-            (Kind::C12, Tier::Quick) => (60_000, 60),
+            (Kind::C12, Tier::Quick) => (50_000, 50),
+            (Kind::C17, Tier::Quick) => (500_000, 50),
             (_, Tier::Quick) => (100_000, 60),
             (Kind::C12, Tier::Thorough) => (5_000_000, 3000),
+            (Kind::C17, Tier::Thorough) => (40_000_000, 3000),
             (_, Tier::Thorough) => (10_000_000, 3000),
         }
     }
